@@ -159,7 +159,48 @@ def check_sparse_cost():
                              'raised': repr(e)})
 
 
+def check_pwl_multipliers():
+    """mmap of a piecewise-linear inequality: with a test vector as the
+    multiplier of G*x <= h, mmap[c].value() is the sum of the multipliers of
+    the linear pieces of c (and the sum of its components when c has length 1
+    and the pieces are vectors)"""
+    from cvxopt.modeling import max as mmax
+    x, y = variable(3, 'x'), variable(3, 'y')
+    b = matrix([1.0, 2.0, 3.0])
+    cases = [
+        ('max(x, y, 2x) <= b', lambda: (mmax(x, y, 2.0 * x) <= b), 9,
+         lambda m: [m[r] + m[3 + r] + m[6 + r] for r in range(3)]),
+        ('max(max(x, y)) <= 1', lambda: (mmax(mmax(x, y)) <= 1.0), 6,
+         lambda m: [sum(m)]),
+        ('max(x) <= 1', lambda: (mmax(x) <= 1.0), 3, lambda m: [sum(m)]),
+        ('max(x, y) <= 0', lambda: (mmax(x, y) <= 0.0), 6,
+         lambda m: [m[r] + m[3 + r] for r in range(3)])]
+    for name, mk, rows, want in cases:
+        c = mk()
+        p = op(dot(matrix([1.0, 1.0, 1.0]), x), [c])
+        lp, vmap, mmap = p._inmatrixform()
+        ine = lp.inequalities()
+        if len(ine) != 1 or len(ine[0]) != rows:
+            fail('assembly', {'case': 'pwl multiplier ' + name,
+                              'rows of G': [len(i) for i in ine],
+                              'expected': rows})
+            continue
+        m = [float(3 * t + 1) for t in range(rows)]
+        ine[0].multiplier.value = matrix(m)
+        got = list(mmap[c].value())
+        w = want(m)
+        if len(got) != len(w) or any(abs(u - v) > 1e-12 for u, v in
+                                     zip(got, w)):
+            fail('assembly', {'case': 'pwl multiplier ' + name,
+                              'multiplier of G*x <= h': m,
+                              'mmap[c].value()': got, 'expected': w})
+
+
 check_assembly()
+try:
+    check_pwl_multipliers()
+except Exception as e:
+    fail('assembly', {'pwl multiplier exception': repr(e)})
 try:
     check_sparse_cost()
 except Exception as e:
